@@ -176,7 +176,16 @@ type Func struct {
 	Params []Param
 	Ret    *Type
 	Body   []Stmt
+	// Forward: the declaration is printed as a forward declaration ("wird später definiert"); the body is
+	// printed where a *FuncDef statement of this function stands (C08 callee shapes)
+	Forward bool
 }
+
+// FuncDecl / FuncDef: top-level statements that only print — the declaration of F (complete, or forward if
+// F.Forward) resp. the definition "Die Funktion F macht:" of a forward-declared F — at this place of the
+// program text. The evaluator ignores them: a Call reaches its *Func directly, whatever the textual order.
+type FuncDecl struct{ F *Func }
+type FuncDef struct{ F *Func }
 
 type Program struct {
 	Aliases []*Type // nested list element aliases etc. (Type.Alias set)
